@@ -471,6 +471,13 @@ theorem cond_sem (row : Row) : ∀ (c : Cond) (n : NCond) (vs : List Value), mkC
       simpa [intended] using leaf_sem row f _ a l vs hl hb
   | .badOp _ _, n, vs, h, hb => by simp [mkCond] at h
   | .badShape, n, vs, h, hb => by simp [mkCond] at h
+  | .raw t, n, vs, h, hb => by
+    simp only [mkCond, Except.ok.injEq] at h
+    subst h
+    simp only [toWhere_leaf, leafWhere, bindAll, Except.ok.injEq] at hb ⊢
+    subst hb
+    intro rest
+    simp [semW, intended]
   | .or cs kw, n, vs, h, hb => by
     simp only [mkCond, bind, Except.bind] at h
     cases hx : mkConds cs with
